@@ -151,6 +151,8 @@ def check_table_ep(acc, order, other):
         ep = importlib_metadata.EntryPoint(epn, "checks.c16_pluginrefs:nothing", to_ep_group_name("schema"))._for(_Dist)
         G._add_ep(epn, ep)
         regd.append((n, v))
+        # the table must be right after EVERY registration step (answers given earlier must not stick)
+        judge_table(acc, G, list(regd), "entry-points", {"path": "ep", "order": order, "other": other, "after": len(regd)}, count_case=False)
     return judge_table(acc, G, regd, "entry-points", {"path": "ep", "order": order, "other": other})
 
 
@@ -169,12 +171,14 @@ def check_table_reg(acc, order):
         cls = type(MetadataSchema)(f"T{_ctr[0]}", (MetadataSchema,), {"Plugin": P, "__module__": __name__})
         register_in_group(schemas, cls, violently=True)
         regd.append((name, v))
+        judge_table(acc, schemas, list(regd), "register_in_group", {"path": "reg", "order": order, "after": len(regd)}, names=[name], count_case=False)
     return judge_table(acc, schemas, regd, "register_in_group", {"path": "reg", "order": order}, names=[name])
 
 
-def judge_table(acc, G, regd, path, case, names=None):
+def judge_table(acc, G, regd, path, case, names=None, count_case=True):
     names = names or sorted({n for n, _ in regd})
-    acc.case([path, case], nontrivial=len(regd) >= 2)
+    if count_case:
+        acc.case([path, case], nontrivial=len(regd) >= 2)
     for name in names:
         want = spec_versions(regd, name, "schema")
         got = [tuple(r.version) for r in G.versions(name)]
